@@ -438,9 +438,9 @@ Fixpoint cut_lf (b : bytes) : option (bytes * bytes) :=
   | x :: t => if x =? 10 then Some ([], t)
               else match cut_lf t with Some (l, r) => Some (x :: l, r) | None => None end
   end.
-Fixpoint reply_lines (fuel : nat) (s : bytes) : option (list (bytes * bytes) * bytes) :=
+Fixpoint reply_lines (fuel : nat) (s : bytes) : option (list (bytes * bytes) * bytes * bool) :=
   match s with
-  | [] => Some ([], [])
+  | [] => Some ([], [], false)            (* stream ended before the empty line *)
   | _ =>
     match fuel with
     | O => None
@@ -452,7 +452,7 @@ Fixpoint reply_lines (fuel : nat) (s : bytes) : option (list (bytes * bytes) * b
         | 13 :: rl =>
           let line := rev rl in
           match line with
-          | [] => Some ([], rest)
+          | [] => Some ([], rest, true)
           | _ =>
             match index_byte 58 line with
             | None => None
@@ -462,7 +462,7 @@ Fixpoint reply_lines (fuel : nat) (s : bytes) : option (list (bytes * bytes) * b
               if forallb is_tchar name && negb (Nat.eqb i 0)
                  && forallb (fun b => (32 <=? b) && (b <? 127)) value
               then match reply_lines f rest with
-                   | Some (hs, body) => Some ((to_upper name, trim_sp value) :: hs, body)
+                   | Some (hs, body, done) => Some ((to_upper name, trim_sp value) :: hs, body, done)
                    | None => None
                    end
               else None
@@ -474,11 +474,17 @@ Fixpoint reply_lines (fuel : nat) (s : bytes) : option (list (bytes * bytes) * b
     end
   end.
 Definition N_STATUS := [83;84;65;84;85;83].
-(* (rterr, status, body): status from the first non-empty Status header (its first word through Atoi), else 200 *)
-Definition parse_reply (st : bytes) : option (Z * Z * bytes) :=
+(* (rterr, status, body) given the stream and the code with which it ended (0 = EOF): status from the first Status
+   header (its first word through Atoi), else 200; a non-numeric status makes RoundTrip fail (rterr 3).
+   Only replies whose header block is closed by an empty line (or that are completely empty and end cleanly) are
+   modelled: otherwise textproto's look-ahead reads swallow errors and read on past END_REQUEST, whose EOF is
+   not sticky (the END_REQUEST body is then parsed as a record header: "invalid header version"). *)
+Definition parse_reply (st : bytes) (code : Z) : option (Z * Z * bytes) :=
   match reply_lines (S (length st)) st with
   | None => None
-  | Some (hs, body) =>
+  | Some (hs, body, done) =>
+    if negb done && negb (bytes_eqb st [] && (code =? 0)) then None     (* header block not closed: outside the model *)
+    else
     let sv := match find (fun kv => bytes_eqb N_STATUS (fst kv)) hs with Some (_, v) => v | None => [] end in
     match sv with
     | [] => Some (0, 200, body)
@@ -486,7 +492,31 @@ Definition parse_reply (st : bytes) : option (Z * Z * bytes) :=
       let w := match index_byte 32 sv with Some i => firstn i sv | None => sv end in
       match parse_dec w with
       | Some n => if n <? 100000000 then Some (0, n, body) else None
-      | None => if forallb (fun b => is_digit b || (b =? 45) || (b =? 43)) w && negb (Nat.eqb (length w) 0) then None else Some (3, 0, [])
+      | None => if forallb (fun b => is_digit b || (b =? 45) || (b =? 43)) w then None else Some (3, 0, [])
       end
     end
   end.
+
+(* ---- what RFC 3875 / the FastCGI responder role expect to find among the parameters (names not overridden by the
+   configured EnvVars; the three variables set last are always expected) *)
+Definition env_has (q : freq) (n : bytes) : bool := existsb (fun kv => bytes_eqb (to_upper (fst kv)) n) (q_env q).
+Definition spec_meta (q : freq) : list (bytes * bytes) :=
+  let rh := req_header q in
+  let '(ip, port) := remote_ip_port (q_remote q) in
+  let '(rhost, rport) := match split_host_port (q_host q) with Some hp => hp | None => (q_host q, []) end in
+  let fixed :=
+    [(N_GATEWAY_INTERFACE, V_CGI11); (N_QUERY_STRING, q_query q); (N_SERVER_PROTOCOL, q_proto q);
+     (N_SCRIPT_NAME, q_path q); (N_PATH_INFO, []); (N_DOCUMENT_ROOT, q_root q); (N_DOCUMENT_URI, q_path q);
+     (N_REQUEST_SCHEME, q_scheme q); (N_REQUEST_URI, request_uri q); (N_REMOTE_ADDR, ip); (N_REMOTE_HOST, ip);
+     (N_REMOTE_PORT, port); (N_SERVER_NAME, rhost); (N_SERVER_PORT, rport);
+     (N_SCRIPT_FILENAME, join_path (q_root q) (q_path q)); (N_SERVER_SOFTWARE, V_BFE)] in
+  let hdrs := map (fun kv => (HTTP_ ++ mangle (fst kv), join_sep [44; 32] (snd kv)))
+                  (filter (fun kv => negb (bytes_eqb (fst kv) [72; 79; 83; 84])) rh) in
+  let last3 := [(N_REQUEST_METHOD, q_method q); (N_CONTENT_LENGTH, dec_of_Z (q_clen q));
+                (N_CONTENT_TYPE, match h_get rh H_CONTENT_TYPE with [] => V_FORM | c => c end)] in
+  let is_last3 (n : bytes) := existsb (fun kv => bytes_eqb (fst kv) n) last3 in
+  let is_hdr (n : bytes) := existsb (fun kv => bytes_eqb (fst kv) n) hdrs in
+  filter (fun kv => negb (env_has q (fst kv))) (fixed ++ hdrs)
+  ++ map (fun kv => (to_upper (fst kv), snd kv))
+         (filter (fun kv => negb (is_last3 (to_upper (fst kv))) && negb (is_hdr (to_upper (fst kv)))) (q_env q))
+  ++ last3.
